@@ -1,4 +1,62 @@
-import PwVerif.Model.Pool
+import PwVerif.Lemmas.Pool
+/-!
+# C09 — no worker outlives its pool; a pool stays usable across runs and restarts
+
+Lean side (partial): facts about one run of the `PwVerif.Pool` model that the cross-run clauses rest on.
+The cross-run bookkeeping itself (what `run()` resets, what `restart_workers()` re-keys, `_close`) and
+the OS facts (child processes gone) are covered by the real-pool histories of `harness/c09.py` only.
+-/
 namespace PwVerif.C09
-theorem placeholder : True := trivial
+open PwVerif.Pool
+
+/-- **a run leaves nothing behind for the next one.** When a run returns normally no result message is
+    left in the pipe of any worker that is still usable, no input is pending and the retry list is
+    empty: the next run starts from a clean slate and its results can only be its own. -/
+theorem C09_clean_after_return (c : Cfg) (hc : Plain c) (pick : List Nat → Option Nat) (hp : PickOK pick)
+    (n : Nat) (src : List Inp) (pre evs : List Ev) (ret : List Inp)
+    (h : outcome (runEvents c pick (start c pick n src pre) evs) = .returned ret) :
+    let s := runEvents c pick (start c pick n src pre) evs
+    s.retries = [] ∧ s.pending = 0 ∧ ∀ x ∈ s.ws, x.closed = false → resIn x.chan = [] ∧ x.inbox = [] := by
+  have hinv := inv_runEvents hc hp evs _ (inv_start hc hp n src pre)
+  generalize runEvents c pick (start c pick n src pre) evs = s at h hinv
+  unfold outcome at h
+  split at h
+  · cases h
+  · split at h
+    · cases h
+    · split at h
+      · rename_i hexit
+        simp only [Bool.and_eq_true, decide_eq_true_eq, List.isEmpty_iff] at hexit
+        obtain ⟨⟨_, hpend⟩, hretr⟩ := hexit
+        refine ⟨hretr, hpend, ?_⟩
+        intro x hx hcl
+        have hlen : ppwLen s = 0 := by
+          have := hinv.pending
+          rw [hpend] at this
+          omega
+        have hall : ∀ (l : List Worker), (l.map fun x => x.ppw.length).sum = 0 → ∀ x ∈ l, x.ppw = [] := by
+          intro l
+          induction l with
+          | nil => intro _ x hx; simp at hx
+          | cons a as ih =>
+            intro hs x hx
+            simp only [List.map_cons, List.sum_cons] at hs
+            simp only [List.mem_cons] at hx
+            rcases hx with rfl | hx
+            · exact List.length_eq_zero_iff.mp (by omega)
+            · exact ih (by omega) x hx
+        have hp0 := hall s.ws hlen x hx
+        have := (hinv.ws x hx).open_ hcl
+        rw [hp0] at this
+        have h' := List.append_eq_nil_iff.mp this.symm
+        have h'' := List.append_eq_nil_iff.mp h'.1
+        exact ⟨h''.1, h''.2⟩
+      · cases h
+
+/-- a worker declared dead holds no pending input of the pool (so a later run has nothing to expect from it) -/
+theorem C09_closed_holds_nothing (c : Cfg) (hc : Plain c) (pick : List Nat → Option Nat) (hp : PickOK pick)
+    (n : Nat) (src : List Inp) (pre evs : List Ev) :
+    ∀ x ∈ (runEvents c pick (start c pick n src pre) evs).ws, x.closed = true → x.ppw = [] :=
+  fun x hx => ((inv_runEvents hc hp evs _ (inv_start hc hp n src pre)).ws x hx).closed_
+
 end PwVerif.C09
